@@ -208,6 +208,25 @@ def one(tmpdir, d, absence, how, remove, u_sub, u_parent, position, tag, prior=N
         elif ks != list(range(T - want, T)):
             out.append(("C20:sub-project-task-not-at-the-end-of-the-backward-run(latest-due-tail)", det))
         return out, want
+    if extra == "reconfigure-at-pause":
+        want = int(math.ceil(dur * _ratio(u_sub, u_parent) - 1e-9))
+        start = 2 if position == "after-pred" else 0
+        k = start + max(1, want // 2)
+        try:
+            m.project.simulate(max_time=k, absence_time_list=[])
+            with warnings.catch_warnings():
+                warnings.simplefilter("ignore")
+                t.set_all_attributes_from_json(remove_absence_time_list=remove)  # configuring is idempotent and leaves the run's state alone
+            t.set_work_amount_progress_of_unit_step_time(m.project.unit_timedelta)
+            m.project.simulate(max_time=MT, absence_time_list=[], initialize_state_info=False, initialize_log_info=False)
+        except Exception as e:
+            return out + [("C20:parent-simulate-raised:%s" % type(e).__name__, {"error": repr(e)})], None
+        log = [int(s) for s in t.state_record_list]
+        ks = [i for i, s in enumerate(log) if s == S.T_WORKING]
+        det = {"sub_duration": dur, "u_sub": u_sub, "u_parent": u_parent, "position": position, "paused_at": k, "log": log, "expected_steps": want, "expected_start": start}
+        if want >= 2 and ks != list(range(start, start + want)):
+            out.append(("C20:sub-project-task-WORKING-steps-wrong-after-configuring-it-again-at-a-pause", det))
+        return out, want
     if extra == "failed-backward":
         # a backward run that is refused with an exception (undocumented task_performed_mode) precedes the forward run
         try:
@@ -358,6 +377,8 @@ def items(tier):
                     out.append((d, (1,), "success", remove, us, up, pos, None))
             for pos in ("after-pred", "before-succ", "mixed-inputs"):
                 out.append((d, (), "success", True, us, up, pos, None, False, None, "failed-backward"))
+            for pos in ("alone", "after-pred"):
+                out.append((max(d, 2) * 2, (), "success", True, us, up, pos, None, False, None, "reconfigure-at-pause"))
         if d == durs[-1]:
             for dl in (12, 25, 37):  # long sub-projects with a long calendar
                 for ab in ((), (1, 2, 3, 10, 11, 20, 21, 22, 23, 30), tuple(range(0, 40, 3))):
